@@ -161,25 +161,25 @@ type Sim struct {
 	Panics  []PanicRec
 	OnPanic func(p PanicRec)
 
-	MaxSteps   uint64
+	MaxSteps uint64
 	// StepCost: virtual nanoseconds every scheduling step of a task costs (0 =
 	// computation is instantaneous). With a cost, code paths have a width in
 	// virtual time and events can land inside them ("slow agent" schedules).
-	StepCost   int64
+	StepCost int64
 	// IODen: switch away from a task at an IOPoint with probability 1/IODen (0 = IOPoints off)
-	IODen      int
-	IOSwitches int
-	spinQuantum int64 // clock advance at the next spin break (doubles while the spinning goes on)
-	rngSalt    uint64 // per-run salt of the random sources
-	rngSalted  bool
-	ioLast     *Task
-	Exhausted  bool
-	logH       uint64
-	LogLines   []string
-	KeepLog    bool
-	switchH    uint64 // hash of (task,site) switch sequence
-	progressAt atomic.Int64
-	epoch      int64
+	IODen       int
+	IOSwitches  int
+	spinQuantum int64  // clock advance at the next spin break (doubles while the spinning goes on)
+	rngSalt     uint64 // per-run salt of the random sources
+	rngSalted   bool
+	ioLast      *Task
+	Exhausted   bool
+	logH        uint64
+	LogLines    []string
+	KeepLog     bool
+	switchH     uint64 // hash of (task,site) switch sequence
+	progressAt  atomic.Int64
+	epoch       int64
 }
 
 // S is the active simulation of this process (one at a time).
